@@ -25,15 +25,18 @@ CFG = dict(
          "for the model: the tx-log bytes from the record's offset to the end of the log with what ReadTx / ReadTx(skip) / "
          "ReadTxHeader returned (reads that fail: every other copy), the SESSION of value reads of the copy in order "
          "(ReadValue x2 per entry, ExportTx x2) against the model threading the value cache, the pristine records against "
-         "the model writer, SHA-256 vectors. vLen is kept below 4 MiB; three regression probes: vLen = 1 GiB (allocation "
+         "the model writer, SHA-256 vectors. vLen is kept below 4 MiB; five regression probes (each is a VIOLATION if it comes back): another committed record copied over a "
+         "record (id check, 93c30ce), a value reference past the end of the value log exported as truncated (6fe0104), "
+         "vLen = 1 GiB (allocation "
          "measured with runtime.MemStats; fixed by 85f50b0), value-log ids the store does not have (panic fixed by "
          "c6a3ff8), vLen+1 on the compressed log (allocation fixed by 73fe655): each is a VIOLATION if it comes back. A case is non-trivial when bytes the read touches were altered or (pristine "
          "cases) a whole real record/value is involved; distinct by full case content.",
     trusted_base=COMMON_TB + [
         "modelled (coq/Corrupt/TxRecord.v): record layout of performPrecommit (header versions 0 and 1, embedded-values "
         "prefix), appendable.Reader as a byte stream, txDataReader.readHeader/readEntry/buildAndValidateHtree, "
-        "Tx.readFrom, TxEntryDigest_v1_1/_v1_2, TxHeader.innerHash/Alh, htree.BuildWith, ReadValue/readValueAt/"
-        "decodeOffset/fetchVLog, the value loop of ExportTx; metadata codecs from coq/Store/Codec.v",
+        "Tx.readFrom, the comparison of the decoded id with the requested id (checkTxID), TxEntryDigest_v1_1/_v1_2, TxHeader.innerHash/Alh, htree.BuildWith, ReadValue/readValueAt/"
+        "decodeOffset/fetchVLog, the value loop of ExportTx with the end-of-log test of readValueAt (value logs are whole byte strings in the "
+        "model: discarded chunks, i.e. genuine truncation, exist only in the harness); metadata codecs from coq/Store/Codec.v",
         "NOT modelled (harness direct check only): compressed value logs (decompressor), multiapp chunking and caches "
         "(txLogCache; the value cache IS modelled, without eviction), the commit log (its entries are not in the corrupted region: offset and size are taken "
         "as given), Open's validation of the last transaction, TxReader, DualProof/LinearProof generation, the indexer and index rebuild (falsifier only), "
